@@ -35,6 +35,8 @@ pub struct Alpha {
     pub make_read_only: bool,
     /// do not generate clears / further growth once the log is this long
     pub max_len: u64,
+    /// also clears whose end lies far beyond the length (other 32-bit bitfield words)
+    pub far_clear: bool,
 }
 
 impl Alpha {
@@ -46,6 +48,7 @@ impl Alpha {
             reopen: true,
             make_read_only: false,
             max_len: u64::MAX,
+            far_clear: true,
         }
     }
     pub fn medium() -> Alpha {
@@ -56,6 +59,7 @@ impl Alpha {
             reopen: true,
             make_read_only: false,
             max_len: u64::MAX,
+            far_clear: true,
         }
     }
     pub fn small() -> Alpha {
@@ -66,6 +70,7 @@ impl Alpha {
             reopen: true,
             make_read_only: false,
             max_len: u64::MAX,
+            far_clear: true,
         }
     }
     pub fn ops(&self, m: &SysModel) -> Vec<Op> {
@@ -104,6 +109,12 @@ impl Alpha {
                         v.push(Op::Clear(len - 1, len + 1));
                     }
                 }
+            }
+        }
+        if self.far_clear && len > 0 {
+            v.push(Op::Clear(len - 1, len + 40));
+            if len > 1 {
+                v.push(Op::Clear(0, len + 40));
             }
         }
         if self.reopen {
@@ -244,7 +255,7 @@ pub fn probes_for(len: u64, big: bool) -> (Vec<u64>, Vec<u64>) {
         }
         has.extend_from_slice(&FAR);
         let mut get: Vec<u64> = vec![];
-        for b in [0u64, 1, 2, 8191, 8192, 8193, 32767, 32768, 32769, 65535, 65536, 65537] {
+        for b in [0u64, 1, 2, 8189, 8190, 8191, 8192, 8193, 8194, 32467, 32599, 32600, 32699, 32700, 32709, 32710, 32757, 32758, 32762, 32763, 32765, 32766, 32767, 32768, 32769, 32770, 32772, 32773, 32777, 32778, 65533, 65534, 65535, 65536, 65537, 65538] {
             if b <= len + 1 {
                 get.push(b);
             }
